@@ -214,4 +214,14 @@ def required_universe(ids=BOUNDARY_IDS):
     defs["WNc"] = struct([field(1, "optional", T("string", True)), field(2, "optional", T("binary")), field(3, "optional", T("i32", True))])
     defs["TNcR"] = struct([field(1, "required", T("string"), nocopy=True), field(2, "required", T("binary"), nocopy=True), field(3, "default", T("i32"))])
     pairs.append(("WNc", "TNcR", "required-nocopy"))
+    # required fields of a type that also declares defaults (generated code has InitDefault on every struct)
+    defs["WRi"] = struct([field(1, "optional", T("i32", True)), field(2, "optional", T("string", True)), field(3, "optional", T("i64", True))])
+    ri = struct([field(1, "required", T("i32")), field(2, "required", T("string")), field(3, "optional", T("i64"))], init=True)
+    ri["fields"][0]["def"] = [0, 0, 0, 5]
+    ri["fields"][2]["def"] = [0] * 7 + [9]
+    defs["TRi"] = ri
+    defs["WRiN"] = struct([field(1, "default", L(ST("WRi", True))), field(2, "optional", ST("WRi", True))])
+    defs["TRiN"] = struct([field(1, "default", L(ST("TRi", True))), field(2, "optional", ST("TRi", True))])
+    pairs.append(("WRi", "TRi", "required-init"))
+    pairs.append(("WRiN", "TRiN", "required-init-nested"))
     return U.with_defaults(defs), pairs
